@@ -691,8 +691,36 @@ fn check_ring_case(c: &RingCase, ctx: &mut CaseCtx<'_>) -> Result<(), String> {
 // (3) router
 // ---------------------------------------------------------------------------------------
 
-fn mk_delta(key: &str, tag: u32, source: u64) -> ReplicationDelta {
-    let r = ReplicaId::new(source);
+/// The ORIGIN (`source_replica`) of a gossiped delta need not be the node that queues it: deltas
+/// are relayed, recovered, replayed and handed over by anti-entropy. The property's sets are
+/// defined by the queueing node (the sender), so the origin must not influence who receives
+/// the update. The low three bits of the tag select the origin: the sender itself, another
+/// member, the first / last owner of the key other than the sender, a member that does not own
+/// the key, or an id outside the membership.
+fn origin_of(key: &str, tag: u32, sender: u64, ring: &HashRing, members: &[u64]) -> u64 {
+    let owners: Vec<u64> = ring.get_replicas(key).iter().map(|r| r.0).filter(|o| *o != sender).collect();
+    match tag % 8 {
+        0..=2 => sender,
+        3 => members.get((tag as usize / 8) % members.len().max(1)).copied().unwrap_or(sender),
+        4 => owners.first().copied().unwrap_or(sender),
+        5 => owners.last().copied().unwrap_or(sender),
+        6 => members
+            .iter()
+            .copied()
+            .find(|m| *m != sender && !owners.contains(m))
+            .unwrap_or(sender),
+        _ => {
+            let mut x = 0xFFFF_FFFF_FFFF_FF00u64 + (tag as u64 % 200);
+            while members.contains(&x) {
+                x = x.wrapping_sub(1);
+            }
+            x
+        }
+    }
+}
+
+fn mk_delta(key: &str, tag: u32, sender: u64, ring: &HashRing, members: &[u64]) -> ReplicationDelta {
+    let r = ReplicaId::new(origin_of(key, tag, sender, ring, members));
     let v = ReplicatedValue::with_value(SDS::from_str(&format!("t{}", tag)), LamportClock::new(r));
     ReplicationDelta::new(key.to_string(), v, r)
 }
@@ -874,7 +902,8 @@ fn batch_keys(batches: &[Vec<u16>], key_space: u16) -> Vec<Vec<(String, u32)>> {
                         // few distinct keys: collisions inside a batch
                         ((i % key_space) as u32 * 65535 / key_space as u32) as u16
                     };
-                    (key_at(idx).to_string(), tag)
+                    // unique tag; its low three bits choose the delta's origin (see origin_of)
+                    (key_at(idx).to_string(), tag * 8 + (i as u32 / 31) % 8)
                 })
                 .collect()
         })
@@ -914,7 +943,7 @@ fn check_sender(
         ));
     }
     for (bi, b) in batches.iter().enumerate() {
-        let deltas: Vec<ReplicationDelta> = b.iter().map(|(k, t)| mk_delta(k, *t, sender)).collect();
+        let deltas: Vec<ReplicationDelta> = b.iter().map(|(k, t)| mk_delta(k, *t, sender, &r, members)).collect();
         let mut want = expected_deliveries(&r, sender, b);
         let table = router.route_deltas(deltas.clone());
         if let Some((t, _)) = table.iter().find(|(_, v)| v.is_empty()) {
@@ -960,7 +989,7 @@ fn check_sender(
     }
     let mut all: Vec<(String, u32)> = Vec::new();
     for b in batches {
-        let deltas: Vec<ReplicationDelta> = b.iter().map(|(k, t)| mk_delta(k, *t, sender)).collect();
+        let deltas: Vec<ReplicationDelta> = b.iter().map(|(k, t)| mk_delta(k, *t, sender, &r, members)).collect();
         gs.queue_deltas(deltas);
         all.extend(b.iter().cloned());
     }
@@ -1189,7 +1218,8 @@ fn run_manager_loop(c: &ManagerCase, batch: &[(String, u32)]) -> Result<LoopOutc
         // a CORRECT router (full, right peer map): only the loop's own addressing is under test
         let peers: HashMap<ReplicaId, String> = addrs.iter().map(|(j, a)| (ReplicaId::new(*j), a.clone())).collect();
         let router = GossipRouter::new(ring.clone(), ReplicaId::new(sender), peers, true);
-        let deltas: Vec<ReplicationDelta> = batch.iter().map(|(k, t)| mk_delta(k, *t, sender)).collect();
+        let ring_copy: HashRing = ring.read().map_err(|_| "ring lock poisoned".to_string())?.clone();
+        let deltas: Vec<ReplicationDelta> = batch.iter().map(|(k, t)| mk_delta(k, *t, sender, &ring_copy, &ids)).collect();
         let calls = Arc::new(AtomicUsize::new(0));
         let task = if c.actor {
             let handle = GossipActor::spawn_with_router(cfg.clone(), router);
